@@ -3,6 +3,7 @@ package props
 import (
 	"encoding/json"
 	"fmt"
+	"os"
 	"os/exec"
 	"sort"
 	"strings"
@@ -378,6 +379,26 @@ func checkC12Processes(raw json.RawMessage) (ev.Result, error) {
 		}
 		if m["lookups"] != first {
 			return ev.Result{}, fmt.Errorf("process %d of %d sees different lookup results than process 1 (digest over every name->number, number->name and alias lookup): some lookup depends on map iteration order", i+1, c.Processes)
+		}
+	}
+	// nor on the environment of the process (a cross-compilation shell exports GOARCH and GOOS)
+	if bin, err := kchild.Bin("digest"); err == nil {
+		for _, env := range [][]string{{"GOARCH=386", "GOOS=linux"}, {"GOARCH=arm64", "GOOS=darwin"}, {"GOARCH=mips"}, {"GOARCH=wasm", "GOOS=js"}} {
+			cmd := exec.Command(bin)
+			cmd.Env = append(os.Environ(), env...)
+			out, err := cmd.Output()
+			if err != nil {
+				return ev.Result{}, ev.Inconclusivef("digest with %v: %v", env, err)
+			}
+			m := map[string]string{}
+			for _, f := range strings.Fields(string(out)) {
+				if kv := strings.SplitN(f, "=", 2); len(kv) == 2 {
+					m[kv[0]] = kv[1]
+				}
+			}
+			if m["lookups"] != first || m["native"] != hostArchName() {
+				return ev.Result{}, fmt.Errorf("with %v in the environment the architecture lookups change: digest %s (without: %s), the build's own architecture is reported as %q (this is a linux/amd64 build)", env, m["lookups"], first, m["native"])
+			}
 		}
 	}
 	// and by another build of the library: the aliases and tables do not depend on the build target either
